@@ -15,20 +15,21 @@ def BabyIdx (d1 b r : Nat) : Prop := b < r ∧ r ≤ d1 + 1 ∧ (r - b) % 2 = 0 
 theorem babyLoop_spec {m g g2 d1 : Nat} (hg2 : g2 ≡ g ^ 2 [MOD m]) :
     ∀ (f b bexp bg : Nat) (gaps vRev iRev : List Nat), b % 2 = 1 → bexp % 2 = 1 → bexp ≤ b → b ≤ d1 + 1 →
       d1 + 3 ≤ b + 2 * f → bg ≡ g ^ bexp [MOD m] → GInv m g gaps →
-      List.Forall₂ (fun v r => v ≡ g ^ r [MOD m]) vRev iRev →
+      List.Forall₂ (fun v r => v ≡ g ^ r [MOD m]) vRev iRev → iRev.Pairwise (· > ·) → (∀ r ∈ iRev, r ≤ b) →
       ∃ vR iR, babyLoop m d1 g2 f b bexp bg gaps vRev = some vR.reverse ∧
-        List.Forall₂ (fun v r => v ≡ g ^ r [MOD m]) vR iR ∧ (∀ r, r ∈ iR ↔ r ∈ iRev ∨ BabyIdx d1 b r)
-  | 0, b, _, _, _, _, _, _, _, _, hb, hf, _, _, _ => by omega
-  | f + 1, b, bexp, bg, gaps, vRev, iRev, hbo, heo, hle, hb, hf, hbg, hgaps, hall => by
+        List.Forall₂ (fun v r => v ≡ g ^ r [MOD m]) vR iR ∧ (∀ r, r ∈ iR ↔ r ∈ iRev ∨ BabyIdx d1 b r) ∧
+        iR.Pairwise (· > ·)
+  | 0, b, _, _, _, _, _, _, _, _, hb, hf, _, _, _, _, _ => by omega
+  | f + 1, b, bexp, bg, gaps, vRev, iRev, hbo, heo, hle, hb, hf, hbg, hgaps, hall, hpw, hle' => by
     rw [babyLoop]
     split
     · rename_i hlt
       simp only
       split
       · rename_i hskip
-        obtain ⟨vR, iR, h1, h2, h3⟩ := babyLoop_spec (d1 := d1) hg2 f (b + 2) bexp bg gaps vRev iRev (by omega) heo (by omega)
-          (by omega) (by omega) hbg hgaps hall
-        refine ⟨vR, iR, h1, h2, fun r => ?_⟩
+        obtain ⟨vR, iR, h1, h2, h3, h4⟩ := babyLoop_spec (d1 := d1) hg2 f (b + 2) bexp bg gaps vRev iRev (by omega) heo (by omega)
+          (by omega) (by omega) hbg hgaps hall hpw (fun r hr => by have := hle' r hr; omega)
+        refine ⟨vR, iR, h1, h2, fun r => ?_, h4⟩
         rw [h3]
         constructor
         · rintro (h | ⟨a1, a2, a3, a4, a5⟩)
@@ -64,9 +65,14 @@ theorem babyLoop_spec {m g g2 d1 : Nat} (hg2 : g2 ≡ g ^ 2 [MOD m]) :
           have hpe : bexp + (2 * ((b + 2 - bexp) / 2 - 1) + 2) = b + 2 := by omega
           rw [hpe] at this
           exact this
-        obtain ⟨vR, iR, h1, h2, h3⟩ := babyLoop_spec (d1 := d1) hg2 f (b + 2) (b + 2) _ gaps' (_ :: vRev) ((b + 2) :: iRev)
+        obtain ⟨vR, iR, h1, h2, h3, h4⟩ := babyLoop_spec (d1 := d1) hg2 f (b + 2) (b + 2) _ gaps' (_ :: vRev) ((b + 2) :: iRev)
           (by omega) (by omega) le_rfl (by omega) (by omega) hbg' hg' (List.Forall₂.cons hbg' hall)
-        refine ⟨vR, iR, h1, h2, fun r => ?_⟩
+          (List.pairwise_cons.mpr ⟨fun r hr => by have := hle' r hr; omega, hpw⟩)
+          (fun r hr => by
+            rcases List.mem_cons.mp hr with rfl | hr
+            · exact le_rfl
+            · have := hle' r hr; omega)
+        refine ⟨vR, iR, h1, h2, fun r => ?_, h4⟩
         rw [h3]
         constructor
         · rintro (h | ⟨a1, a2, a3, a4, a5⟩)
@@ -80,7 +86,7 @@ theorem babyLoop_spec {m g g2 d1 : Nat} (hg2 : g2 ≡ g ^ 2 [MOD m]) :
             · subst hr; exact Or.inl List.mem_cons_self
             · exact Or.inr ⟨by omega, a2, by omega, a4, a5⟩
     · rename_i hge
-      refine ⟨vRev, iRev, rfl, hall, fun r => ?_⟩
+      refine ⟨vRev, iRev, rfl, hall, fun r => ?_, hpw⟩
       constructor
       · exact Or.inl
       · rintro (h | ⟨a1, a2, a3, _, _⟩)
@@ -89,7 +95,8 @@ theorem babyLoop_spec {m g g2 d1 : Nat} (hg2 : g2 ≡ g ^ 2 [MOD m]) :
 
 theorem babySteps_spec (m g d1 : Nat) :
     ∃ vs idx, babySteps m d1 g = some vs ∧ List.Forall₂ (fun v r => v ≡ g ^ r [MOD m]) vs idx ∧
-      ∀ r, r ∈ idx ↔ r = 1 ∨ (1 < r ∧ r ≤ d1 + 1 ∧ r % 2 = 1 ∧ r % 3 ≠ 0 ∧ Nat.gcd r d1 = 1) := by
+      (∀ r, r ∈ idx ↔ r = 1 ∨ (1 < r ∧ r ≤ d1 + 1 ∧ r % 2 = 1 ∧ r % 3 ≠ 0 ∧ Nat.gcd r d1 = 1)) ∧
+      idx.Pairwise (· < ·) := by
   unfold babySteps
   simp only
   have hG : GInv m g [mulm m g g] := by
@@ -100,9 +107,10 @@ theorem babySteps_spec (m g d1 : Nat) :
       subst hv
       exact g2_modEq m g
     | i + 1, hv => simp at hv
-  obtain ⟨vR, iR, h1, h2, h3⟩ := babyLoop_spec (d1 := d1) (g2_modEq m g) (d1 + 2) 1 1 g [mulm m g g] [g] [1]
+  obtain ⟨vR, iR, h1, h2, h3, h4⟩ := babyLoop_spec (d1 := d1) (g2_modEq m g) (d1 + 2) 1 1 g [mulm m g g] [g] [1]
     (by decide) (by decide) le_rfl (by omega) (by omega) (by rw [pow_one]) hG (List.Forall₂.cons (by rw [pow_one]) List.Forall₂.nil)
-  refine ⟨vR.reverse, iR.reverse, h1, List.forall₂_reverse_iff.mpr h2, fun r => ?_⟩
+    (List.pairwise_singleton _ _) (fun r hr => by simp at hr; omega)
+  refine ⟨vR.reverse, iR.reverse, h1, List.forall₂_reverse_iff.mpr h2, fun r => ?_, List.pairwise_reverse.mpr h4⟩
   rw [List.mem_reverse, h3]
   simp only [List.mem_singleton, BabyIdx]
   constructor
